@@ -2,7 +2,7 @@
 
 from .exec import Exec
 
-DEFAULT_RESUMES = ['r1', 'r2', 'r3', 'r4', 'r5', 'r6', 'r7', 'r8', 'r9', 'r10', 'r11', 'r12']
+DEFAULT_RESUMES = ['r%d' % i for i in range(1, 97)]
 
 
 def summary(ex):
@@ -78,9 +78,21 @@ def run_from(case, ckpt, medium, resumes=None, capture=False, loader=None):
         complete(ex, resumes)
         pid = ex.proc.pid
         out['steps'] = ex.world.steps(pid)
+        out['trace'] = list(ex.world.trace.get(pid, []))
         out['checkpoints'] = ex.checkpoints
         out['summary'] = summary(ex)
         out['escapes'] = [(c['message'][:80], c['exc_type'], c['exc_str']) for c in ex.loop.escapes()]
+    return out
+
+
+def entries(trace):
+    """Step and predicate calls of a trace, in order."""
+    out = []
+    for e in trace:
+        if e['k'] == 'enter':
+            out.append(('step', e['step'], e['args'], e['kwargs']))
+        elif e['k'] == 'pred':
+            out.append(('pred', e['name'], e['value']))
     return out
 
 
